@@ -210,6 +210,10 @@ class FunctionDefinition:
             if '**' in self.parameters:
                 argdef = self.parameters['**']
                 for key in kwargs:
+                    if key in self.parameters:
+                        # the name of one of the function's own python
+                        # parameters cannot be delivered through **kwargs
+                        return None
                     keyword_args[key] = argdef
             else:
                 return None
@@ -304,6 +308,8 @@ class FunctionDefinition:
             if '**' in self.parameters:
                 argdef = self.parameters['**']
                 for key, value in kwargs.items():
+                    if key in self.parameters:
+                        raise exceptions.ArgumentException(key)
                     keyword_args[key] = checked(value, argdef)
             else:
                 raise exceptions.ArgumentException('**')
